@@ -179,6 +179,19 @@ CHECKS["C05"] = {
     "note": TB + "; documents of the dialect with distinct keys; whitespace-only indent/separator",
 }
 
+CHECKS["C20"] = {
+    "text": "Entrypoints.tla states parse_string/write_string as stack builders plus left folds over abstract middlewares "
+            "(probes that log what they see, remove/add-enclosing, month-int) and the per-block splice protocol; "
+            "MC_Entrypoints enumerates every stack of 0..2 (quick) / 0..3 middlewares in each argument position x "
+            "{list, tuple, one-shot iterator}, both-arguments configurations, and 14 result kinds x 5 block types, checking "
+            "InvOrder and InvBoth; every configuration is replayed on the real entry points with probe middlewares (the log "
+            "and the number of brace layers make the order of application observable; the written text is compared with "
+            "Writer!Write), splice results on BlockMiddleware.transform, and the file clauses on real temporary files in "
+            "utf-8/latin-1/gbk/utf-16 with path, file-object and StringIO targets.",
+    "ref": "6/C20", "technique": "TLA+ spec (Entrypoints.tla over Writer.tla) + TLC complete configuration enumeration replayed into the entry points",
+    "note": TB + "; probe middlewares written in the harness; stacks that hand an int to RemoveEnclosing are skipped (type-state)",
+}
+
 NOT_APPLICABLE = {}
 for _e in ENGINES:
     _e["serves_properties"] = sorted(CHECKS)
